@@ -108,6 +108,7 @@ pub fn draw_config(tape: &mut Tape, flavor: Flavor, max_deliveries: usize) -> Co
         faults.send_error = rate(tape);
         faults.body_cut = rate(tape);
         faults.list_5xx = rate(tape);
+        faults.list_404 = rate(tape);
         faults.budget = 1 + tape.draw(40);
         faults.per_chunk_cap = 1 + tape.draw(2);
         faults.latency_max_ms = [0u64, 200, 2000, 5000][tape.draw(4) as usize];
@@ -659,7 +660,7 @@ impl Check for C18 {
     }
     fn required_probes(&self, tier: Tier) -> Vec<&'static str> {
         // only probes that do not depend on a free choice of the code under test
-        let mut v = vec!["volume_boundary_crossed", "wrap_999_to_1_delivered", "stop_sent", "chunk_receiver_dropped", "stats_receiver_dropped", "error_consumer_gone", "error_chunk_never_appeared", "visibility_delay_attempts", "fault.transient_404", "fault.status_5xx", "fault.send_error", "fault.body_cut", "fault.list_5xx", "fault.latency", "returned_ok"];
+        let mut v = vec!["volume_boundary_crossed", "wrap_999_to_1_delivered", "stop_sent", "chunk_receiver_dropped", "stats_receiver_dropped", "error_consumer_gone", "error_chunk_never_appeared", "visibility_delay_attempts", "fault.transient_404", "fault.status_5xx", "fault.send_error", "fault.body_cut", "fault.list_5xx", "fault.list_404", "fault.latency", "returned_ok"];
         if tier == Tier::Thorough {
             v.push("full_rotation_completed");
         }
